@@ -13,6 +13,7 @@ import (
 // has been canceled.
 func Pop[T any](ctx context.Context, ch <-chan T) (T, bool, error) {
 	var res T
+	hookYield()
 	select {
 	case d, ok := <-ch:
 		return d, ok, ctx.Err()
@@ -25,6 +26,7 @@ func Pop[T any](ctx context.Context, ch <-chan T) (T, bool, error) {
 // has been canceled.
 func Push[T any](ctx context.Context, ch chan<- T, ts ...T) error {
 	for _, t := range ts {
+		hookYield()
 		select {
 		case <-ctx.Done():
 			return ctx.Err()
@@ -114,11 +116,15 @@ func Seq[T any](ctx context.Context, ts []T, fs ...func(T) error) ([]T, error) {
 	workers = append(workers, w)
 	for _, f := range fs {
 		f, inCh := f, prevCh
+		stageNo := len(workers)
 		ch, w := Produce(func(ctx context.Context, ch chan<- T) error {
 			return ForEach(ctx, inCh, func(t T) error {
+				hookTrace("begin", stageNo)
 				if err := f(t); err != nil {
+					hookTrace("fail", stageNo)
 					return err
 				}
+				hookTrace("end", stageNo)
 				return Push(ctx, ch, t)
 			})
 		})
@@ -129,6 +135,7 @@ func Seq[T any](ctx context.Context, ts []T, fs ...func(T) error) ([]T, error) {
 	ch, w := FanIn(func(ctx context.Context, ch chan<- []T) error {
 		var res []T
 		err := ForEach(ctx, prevCh, func(t T) error {
+			hookTrace("sink", len(res))
 			res = append(res, t)
 			return nil
 		})
